@@ -85,7 +85,7 @@ def is_memory_model_artefact(c):
     these come from the tool's model of std internals (zero-size String / Vec paths, lazily initialised statics) or from
     the harness's own raw-pointer probes - never from the code under contract. Panics (bounds, unwrap, overflow,
     unreachable) are `assertion` checks and are NOT covered by this rule."""
-    if c.get("status") != "Failure" or not repo_is_unsafe_free():
+    if c.get("status") not in ("Failure", "Unknown", "Undetermined") or not repo_is_unsafe_free():
         return False
     fn = c.get("function", "")
     cat = c.get("category", "")
